@@ -74,49 +74,78 @@ Qed.
 
 Lemma chains_ok_true : chains_ok = true.
 Proof. reflexivity. Qed.
+Lemma mc_chains_ok_true : mc_chains_ok = true.
+Proof. reflexivity. Qed.
 
 (* the heart: an object found in the heap chosen for stack size [want] has stack size [want] *)
-Lemma same_heap_same_size : forall (p : params) s want h,
-  chain_lookup recycle_chain p s = Some h -> chain_lookup create_chain p want = Some h -> s = want.
+Lemma same_heap_same_size_g : forall (k : qcode) (p : params) s want h, chains_ok_g k = true ->
+  chain_lookup (qc_recycle k) p s = Some h -> chain_lookup (qc_create k) p want = Some h -> s = want.
 Proof.
-  intros p s want h Hr Hc.
-  pose proof chains_ok_true as Hok. unfold chains_ok in Hok. apply andb_prop in Hok. destruct Hok as [He Hn].
+  intros k p s want h Hok Hr Hc.
+  unfold chains_ok_g in Hok. apply andb_prop in Hok. destruct Hok as [He Hn].
   apply chain_eqb_eq in He. rewrite <- He in Hr.
   destruct (lookup_in _ _ _ _ Hr) as (c1 & Hi1 & Hs1).
   destruct (lookup_in _ _ _ _ Hc) as (c2 & Hi2 & Hs2).
   rewrite (nodup_snd _ _ _ _ Hn Hi1 Hi2) in Hs1. congruence.
 Qed.
 
-Definition q_inv (p : params) (q : qstate) : Prop :=
-  (forall h o, In o (qheaps q h) -> chain_lookup recycle_chain p (osize o) = Some h) /\
+Lemma same_heap_same_size : forall (p : params) s want h,
+  chain_lookup recycle_chain p s = Some h -> chain_lookup create_chain p want = Some h -> s = want.
+Proof. intros p s want h. exact (same_heap_same_size_g tq_code p s want h chains_ok_true). Qed.
+
+(* whichever end of the list is used, the object taken was in the heap and the rest is a part of it;
+   the object put back is the only new member *)
+Lemma take_end_in : forall e l o rest, take_end e l = Some (o, rest) ->
+  In o l /\ (forall x, In x rest -> In x l).
+Proof.
+  intros e l o rest H. destruct e; cbn [take_end] in H.
+  - destruct l as [|a r]; [discriminate|]. inversion H; subst. split; [left; reflexivity|].
+    intros x Hx. right. exact Hx.
+  - destruct (rev l) as [|a r] eqn:E; [discriminate|]. inversion H; subst.
+    assert (Hl : l = rev (o :: r)) by (rewrite <- E; symmetry; apply rev_involutive).
+    split.
+    + rewrite Hl. apply in_rev. rewrite rev_involutive. left. reflexivity.
+    + intros x Hx. rewrite Hl. apply in_rev. rewrite rev_involutive. right. apply in_rev. exact Hx.
+Qed.
+
+Lemma put_end_in : forall e o l x, In x (put_end e o l) -> x = o \/ In x l.
+Proof.
+  intros e o l x H. destruct e; cbn [put_end] in H.
+  - destruct H as [H|H]; [left; symmetry; exact H|right; exact H].
+  - apply in_app_or in H. destruct H as [H|[H|[]]]; [right; exact H|left; symmetry; exact H].
+Qed.
+
+Definition q_inv_g (k : qcode) (p : params) (q : qstate) : Prop :=
+  (forall h o, In o (qheaps q h) -> chain_lookup (qc_recycle k) p (osize o) = Some h) /\
   (forall o cls want, In (EvRebound o cls want) (qlog q) -> osize o = want /\ want = get_stack_size p cls) /\
   (forall o cls want, In (EvNew o cls want) (qlog q) -> osize o = want /\ want = get_stack_size p cls).
 
-Lemma q_step_inv : forall p q op, q_inv p q -> q_inv p (q_step p q op).
+Lemma q_step_inv_g : forall k p q op, chains_ok_g k = true -> q_inv_g k p q -> q_inv_g k p (q_step_g k p q op).
 Proof.
-  intros p q op (Hh & Hr & Hn). destruct op as [cls|n]; cbn [q_step].
-  - destruct (chain_lookup create_chain p (get_stack_size p cls)) as [h|] eqn:Ec.
-    + destruct (qheaps q h) as [|o rest] eqn:Eh.
+  intros k p q op Hok (Hh & Hr & Hn). destruct op as [cls|n]; cbn [q_step_g].
+  - destruct (chain_lookup (qc_create k) p (get_stack_size p cls)) as [h|] eqn:Ec.
+    + destruct (take_end (qc_take k) (qheaps q h)) as [[o rest]|] eqn:Eh.
+      * destruct (take_end_in _ _ _ _ Eh) as [Hio Hrest].
+        assert (Ho : chain_lookup (qc_recycle k) p (osize o) = Some h) by (apply Hh; exact Hio).
+        split; [|split]; cbn [qlog qheaps].
+        -- intros h' o' Hin. unfold upd_heap in Hin. destruct (sclass_eqb h' h) eqn:E.
+           ++ apply sclass_eqb_eq in E. subst h'. apply Hh. apply Hrest. exact Hin.
+           ++ exact (Hh _ _ Hin).
+        -- intros o' cl w [H|H]; [|exact (Hr _ _ _ H)].
+           inversion H; subst. split; [|reflexivity]. exact (same_heap_same_size_g _ _ _ _ _ Hok Ho Ec).
+        -- intros o' cl w [H|H]; [discriminate|exact (Hn _ _ _ H)].
       * split; [exact Hh|]. split; cbn [qlog qheaps].
         -- intros o cl w [H|H]; [discriminate|exact (Hr _ _ _ H)].
         -- intros o cl w [H|H]; [inversion H; subst; split; reflexivity|exact (Hn _ _ _ H)].
-      * assert (Ho : chain_lookup recycle_chain p (osize o) = Some h).
-        { apply Hh. rewrite Eh. left. reflexivity. }
-        split; [|split]; cbn [qlog qheaps].
-        -- intros h' o' Hin. unfold upd_heap in Hin. destruct (sclass_eqb h' h) eqn:E.
-           ++ apply sclass_eqb_eq in E. subst h'. apply Hh. rewrite Eh. right. exact Hin.
-           ++ exact (Hh _ _ Hin).
-        -- intros o' cl w [H|H]; [|exact (Hr _ _ _ H)].
-           inversion H; subst. split; [|reflexivity]. exact (same_heap_same_size _ _ _ _ Ho Ec).
-        -- intros o' cl w [H|H]; [discriminate|exact (Hn _ _ _ H)].
     + split; [exact Hh|]. split; cbn [qlog].
       * intros o cl w [H|H]; [discriminate|exact (Hr _ _ _ H)].
       * intros o cl w [H|H]; [discriminate|exact (Hn _ _ _ H)].
   - destruct (nth_error (qlive q) n) as [o|]; [|exact (conj Hh (conj Hr Hn))].
-    destruct (chain_lookup recycle_chain p (osize o)) as [h|] eqn:Ec.
+    destruct (chain_lookup (qc_recycle k) p (osize o)) as [h|] eqn:Ec.
     + split; [|split]; cbn [qlog qheaps].
       * intros h' o' Hin. unfold upd_heap in Hin. destruct (sclass_eqb h' h) eqn:E.
-        -- apply sclass_eqb_eq in E. subst h'. destruct Hin as [Hin|Hin]; [subst; exact Ec|exact (Hh _ _ Hin)].
+        -- apply sclass_eqb_eq in E. subst h'. apply put_end_in in Hin.
+           destruct Hin as [Hin|Hin]; [subst; exact Ec|exact (Hh _ _ Hin)].
         -- exact (Hh _ _ Hin).
       * intros o' cl w [H|H]; [discriminate|exact (Hr _ _ _ H)].
       * intros o' cl w [H|H]; [discriminate|exact (Hn _ _ _ H)].
@@ -125,54 +154,145 @@ Proof.
       * intros o' cl w [H|H]; [discriminate|exact (Hn _ _ _ H)].
 Qed.
 
-Lemma q_run_inv : forall p ops q, q_inv p q -> q_inv p (fold_left (q_step p) ops q).
+Lemma q_run_inv_g : forall k p ops q, chains_ok_g k = true -> q_inv_g k p q -> q_inv_g k p (fold_left (q_step_g k p) ops q).
 Proof.
-  induction ops as [|op ops IH]; intros q H; [exact H|]. cbn [fold_left]. apply IH. apply q_step_inv. exact H.
+  intros k p ops. induction ops as [|op ops IH]; intros q Hok H; [exact H|].
+  cbn [fold_left]. apply IH; [exact Hok|]. apply q_step_inv_g; assumption.
 Qed.
 
+Lemma q_inv_init : forall k p, q_inv_g k p q_init.
+Proof. intros k p. repeat split; intros; contradiction. Qed.
+
+Lemma recycle_same_size_g : forall (k : qcode) (p : params) (ops : list qop) o cls want, chains_ok_g k = true ->
+  In (EvRebound o cls want) (qlog (q_run_g k p ops)) ->
+  osize o = want /\ want = get_stack_size p cls.
+Proof.
+  intros k p ops o cls want Hok H.
+  destruct (q_run_inv_g k p ops q_init Hok (q_inv_init k p)) as (_ & Hr & _). exact (Hr _ _ _ H).
+Qed.
+
+Lemma new_object_size_g : forall (k : qcode) (p : params) (ops : list qop) o cls want, chains_ok_g k = true ->
+  In (EvNew o cls want) (qlog (q_run_g k p ops)) ->
+  osize o = want /\ want = get_stack_size p cls.
+Proof.
+  intros k p ops o cls want Hok H.
+  destruct (q_run_inv_g k p ops q_init Hok (q_inv_init k p)) as (_ & _ & Hn). exact (Hn _ _ _ H).
+Qed.
+
+(* thread_queue *)
 Lemma recycle_same_size_l : forall (p : params) (ops : list qop) o cls want,
   In (EvRebound o cls want) (qlog (q_run p ops)) ->
   osize o = want /\ want = get_stack_size p cls.
-Proof.
-  intros p ops o cls want H.
-  assert (Hi : q_inv p (q_run p ops)).
-  { apply q_run_inv. repeat split; intros; contradiction. }
-  destruct Hi as (_ & Hr & _). exact (Hr _ _ _ H).
-Qed.
+Proof. intros p ops o cls want. exact (recycle_same_size_g tq_code p ops o cls want chains_ok_true). Qed.
 
 Lemma new_object_size_l : forall (p : params) (ops : list qop) o cls want,
   In (EvNew o cls want) (qlog (q_run p ops)) ->
   osize o = want /\ want = get_stack_size p cls.
+Proof. intros p ops o cls want. exact (new_object_size_g tq_code p ops o cls want chains_ok_true). Qed.
+
+(* thread_queue_mc / queue_holder_thread *)
+Lemma mc_recycle_same_size_l : forall (p : params) (ops : list qop) o cls want,
+  In (EvRebound o cls want) (qlog (mc_q_run p ops)) ->
+  osize o = want /\ want = get_stack_size p cls.
+Proof. intros p ops o cls want. exact (recycle_same_size_g mc_code p ops o cls want mc_chains_ok_true). Qed.
+
+Lemma mc_new_object_size_l : forall (p : params) (ops : list qop) o cls want,
+  In (EvNew o cls want) (qlog (mc_q_run p ops)) ->
+  osize o = want /\ want = get_stack_size p cls.
+Proof. intros p ops o cls want. exact (new_object_size_g mc_code p ops o cls want mc_chains_ok_true). Qed.
+
+(* every failed heap lookup is logged; with five pairwise different configured sizes, or any configuration for the four
+   stackful classes, create never fails: get_stack_size p c is one of the sizes compared *)
+Lemma mc_create_finds_heap_l : forall (p : params) (c : sclass), c <> Nostack ->
+  exists h, chain_lookup mc_create_chain p (get_stack_size p c) = Some h.
 Proof.
-  intros p ops o cls want H.
-  assert (Hi : q_inv p (q_run p ops)).
-  { apply q_run_inv. repeat split; intros; contradiction. }
-  destruct Hi as (_ & _ & Hn). exact (Hn _ _ _ H).
+  intros p c Hc. destruct c; try (exfalso; apply Hc; reflexivity);
+    unfold get_stack_size; cbn [assoc enum_size sclass_eqb sclass_idx Z.eqb Pos.eqb];
+    unfold mc_create_chain; cbn [chain_lookup];
+    repeat (match goal with |- context [if ?a =? ?b then _ else _] => destruct (a =? b) eqn:? end);
+    try (eexists; reflexivity);
+    repeat match goal with H : (?a =? ?a) = false |- _ => rewrite Z.eqb_refl in H; discriminate H end.
 Qed.
 
 (* ---------------- thread_stacksize::current ---------------- *)
 Lemma current_resolution_before_split : current_resolution = CurBeforeSplit.
 Proof. reflexivity. Qed.
+Lemma mc_current_resolution_before_split : mc_current_resolution = CurBeforeSplit.
+Proof. reflexivity. Qed.
+
+Lemma created_class_at_current : forall (path : cpath) (c : sclass) (conv : option sclass),
+  created_class_at CurBeforeSplit path (Some c) conv Current = c /\ created_enum_at CurBeforeSplit path (Some c) Current = Some c.
+Proof. intros path c conv. destruct path; split; reflexivity. Qed.
+Lemma created_class_at_explicit : forall (path : cpath) (creator conv : option sclass) (c : sclass),
+  created_class_at CurBeforeSplit path creator conv (Explicit c) = c /\ created_enum_at CurBeforeSplit path creator (Explicit c) = Some c.
+Proof. intros path creator conv c. destruct path; split; reflexivity. Qed.
+Lemma created_class_at_no_task : forall (path : cpath) (conv : option sclass),
+  created_class_at CurBeforeSplit path None conv Current = no_self_class.
+Proof. intros path conv. destruct path; reflexivity. Qed.
 
 Lemma created_class_current_l : forall (path : cpath) (c : sclass) (conv : option sclass),
   created_class path (Some c) conv Current = c /\ created_enum path (Some c) Current = Some c.
 Proof.
-  intros path c conv. unfold created_class, created_enum, create_prologue, create_prologue_at.
-  rewrite current_resolution_before_split. destruct path; split; reflexivity.
+  intros path c conv. unfold created_class, created_enum.
+  rewrite current_resolution_before_split. apply created_class_at_current.
 Qed.
 
 Lemma created_class_explicit_l : forall (path : cpath) (creator conv : option sclass) (c : sclass),
   created_class path creator conv (Explicit c) = c /\ created_enum path creator (Explicit c) = Some c.
 Proof.
-  intros path creator conv c. unfold created_class, created_enum, create_prologue, create_prologue_at.
-  rewrite current_resolution_before_split. destruct path; split; reflexivity.
+  intros path creator conv c. unfold created_class, created_enum.
+  rewrite current_resolution_before_split. apply created_class_at_explicit.
 Qed.
 
 Lemma created_class_no_task_l : forall (path : cpath) (conv : option sclass),
   created_class path None conv Current = no_self_class.
 Proof.
-  intros path conv. unfold created_class, create_prologue, create_prologue_at.
-  rewrite current_resolution_before_split. destruct path; reflexivity.
+  intros path conv. unfold created_class.
+  rewrite current_resolution_before_split. apply created_class_at_no_task.
+Qed.
+
+(* thread_queue_mc *)
+Lemma mc_created_class_current_l : forall (path : cpath) (c : sclass) (conv : option sclass),
+  mc_created_class path (Some c) conv Current = c /\ mc_created_enum path (Some c) Current = Some c.
+Proof.
+  intros path c conv. unfold mc_created_class, mc_created_enum.
+  rewrite mc_current_resolution_before_split. apply created_class_at_current.
+Qed.
+
+Lemma mc_created_class_explicit_l : forall (path : cpath) (creator conv : option sclass) (c : sclass),
+  mc_created_class path creator conv (Explicit c) = c /\ mc_created_enum path creator (Explicit c) = Some c.
+Proof.
+  intros path creator conv c. unfold mc_created_class, mc_created_enum.
+  rewrite mc_current_resolution_before_split. apply created_class_at_explicit.
+Qed.
+
+Lemma mc_created_class_no_task_l : forall (path : cpath) (conv : option sclass),
+  mc_created_class path None conv Current = no_self_class.
+Proof.
+  intros path conv. unfold mc_created_class.
+  rewrite mc_current_resolution_before_split. apply created_class_at_no_task.
+Qed.
+
+Lemma mc_descend_current_l : forall (gens : list (cpath * option sclass * sreq)) (c : sclass),
+  (forall g, In g gens -> snd g = Current) -> mc_descend c gens = c.
+Proof.
+  induction gens as [|[[path conv] r] t IH]; intros c H; [reflexivity|].
+  cbn [mc_descend]. assert (Hr : r = Current) by exact (H (path, conv, r) (or_introl eq_refl)).
+  subst r. rewrite (proj1 (mc_created_class_current_l path c conv)).
+  apply IH. intros g Hg. apply H. right. exact Hg.
+Qed.
+
+Lemma mc_current_child_object_size_l : forall (p : params) (ops : list qop) (path : cpath) (c : sclass)
+    (conv : option sclass) o want,
+  In (EvRebound o (mc_created_class path (Some c) conv Current) want) (qlog (mc_q_run p ops)) \/
+  In (EvNew o (mc_created_class path (Some c) conv Current) want) (qlog (mc_q_run p ops)) ->
+  osize o = get_stack_size p c.
+Proof.
+  intros p ops path c conv o want H.
+  rewrite (proj1 (mc_created_class_current_l path c conv)) in H.
+  destruct H as [H|H].
+  - destruct (mc_recycle_same_size_l _ _ _ _ _ H) as [H1 H2]. congruence.
+  - destruct (mc_new_object_size_l _ _ _ _ _ H) as [H1 H2]. congruence.
 Qed.
 
 Lemma descend_current_l : forall (gens : list (cpath * option sclass * sreq)) (c : sclass),
